@@ -21,8 +21,10 @@ def sh(cmd, **kw):
 
 def main():
     pid = sys.argv[1]
-    checks, tier = [pid], "quick"
+    checks, tier, suffix = [pid], "quick", ""
     for i, a in enumerate(sys.argv):
+        if a == "--suffix":
+            suffix = sys.argv[i + 1]
         if a == "--checks":
             checks = sys.argv[i + 1].split(",")
         if a == "--tier":
@@ -50,7 +52,7 @@ def main():
                 lines = [l for l in r.stdout.splitlines() if l.startswith(("VIOLATION", "OK ", "MACHINERY", "  failing clause", "KNOWN", "EXTENDED"))]
                 results[c] = {"rc": r.returncode, "lines": [l[:400] for l in lines[:6]]}
                 print(f"   check {c}: rc={r.returncode} " + (" | ".join(l[:260] for l in lines[:3]) if lines else r.stdout[-300:]))
-            out = os.path.join(VERIF, "benign", f"{pid}-{k}")
+            out = os.path.join(VERIF, "benign", f"{pid}-{suffix}{k}")
             os.makedirs(out, exist_ok=True)
             shutil.copy(patch, os.path.join(out, "patch.diff"))
             m2 = dict(m)
